@@ -1159,6 +1159,24 @@ def gen_simd_alpha(repo):
         rows.append((f + '::' + fn, ' '.join(sk)))
     out += '/-- arithmetic skeleton (intrinsics in order, with their immediates and constants) of the SIMD 8-bit divide_alpha lane kernels -/\n'
     out += 'def simdDiv8Skeleton : List (String × String) := [\n%s]\n\n' % ',\n'.join('  ("%s", "%s")' % (a, b.replace('"', '\\"')) for a, b in rows)
+    # 16-bit lanes: two binary32 roundings (mul_ps by 65535.0, div_ps), min_ps, zero mask, cvtps_epi32
+    rows = []
+    for f, fn in (('src/alpha/u16x2/sse4.rs', 'divide_alpha_4_pixels'), ('src/alpha/u16x2/avx2.rs', 'divide_alpha_8_pixels'),
+                  ('src/alpha/u16x4/sse4.rs', 'divide_alpha_2_pixels'), ('src/alpha/u16x4/avx2.rs', 'divide_alpha_4_pixels')):
+        with open(os.path.join(repo, f)) as fh:
+            src = fh.read()
+        m = re.search(r'unsafe fn %s\(.*?\n\}' % fn, src, re.S)
+        if not m:
+            raise TranslationError("%s: fn %s not found" % (f, fn))
+        body = re.sub(r'//[^\n]*', '', m.group(0))
+        body = re.sub(r'/\*.*?\*/', '', body, flags=re.S)
+        names = re.findall(r'_mm(?:256)?_(div_ps|mul_ps|add_ps|sub_ps|rcp_ps|min_ps|max_ps|and_ps|andnot_ps|or_ps|cmpneq_ps|cmpeq_ps|cmpgt_ps|cmplt_ps|cmp_ps::<\w+>|cvtps_epi32|cvttps_epi32|cvtepi32_ps|packus_epi32|packs_epi32|srli_epi32::<\d+>|slli_epi32::<\d+>|add_epi32|sub_epi32|mullo_epi32)(?!\w)', body)
+        consts = re.findall(r'_mm(?:256)?_(set1_ps)\(([^()]*(?:\([^()]*\))?[^()]*)\)', body)
+        # the order of independent statements (which half is computed first) is immaterial: keep the multiset per kind, sorted
+        sk = sorted('%s(%s)' % (n, ' '.join(a.split())) for n, a in consts) + sorted(n.replace('cmp_ps::<_CMP_NEQ_UQ>', 'cmpneq_ps') for n in names)
+        rows.append((f + '::' + fn, ' '.join(sk)))
+    out += '/-- arithmetic intrinsics (sorted multiset, with the float constants) of the SIMD 16-bit divide_alpha lane kernels -/\n'
+    out += 'def simdDiv16Skeleton : List (String × String) := [\n%s]\n\n' % ',\n'.join('  ("%s", "%s")' % (a, b.replace('"', '\\"')) for a, b in rows)
     return out
 
 def gen_sizes(repo):
